@@ -2,7 +2,7 @@
 # vtrace.sh <module> <rec.ndjson> <decls.ndjson> '<defects>' : validate a record file with TLC (single process), print bad sets
 M=$1; R=$(readlink -f $2); D=$(readlink -f $3); DEF=$4
 T=$(mktemp -d /tmp/vtrace.XXXX); cp /verif/spec/*.tla $T/; ln -s $R $T/trace.ndjson; ln -s $D $T/decls.ndjson
-printf 'SPECIFICATION Spec\nCONSTANT Defects = {%s}\nCHECK_DEADLOCK FALSE\nPOSTCONDITION Post\n' "$DEF" > $T/$M.cfg
+printf 'SPECIFICATION Spec\nCONSTANT Defects = {%s}\nINVARIANT JudgeRecord\nCHECK_DEADLOCK FALSE\nPOSTCONDITION Post\n' "$DEF" > $T/$M.cfg
 (cd $T && JAVA_TOOL_OPTIONS=-Xss128m timeout 3000 tlc -workers 1 -metadir $T/meta -config $M.cfg $M.tla > out.txt 2>&1)
 python3 - $T/out.txt <<'PY'
 import re,sys
